@@ -22,7 +22,7 @@ func VfC08_ParseLocals() {
 		}
 		return implicit
 	}
-	src := "declare i32 @g()\ndeclare void @v()\ndeclare void @w(i32)\ndeclare void @va(i32, ...)\n" +
+	src := "%sig = type void (i32)\ndeclare i32 @g()\ndeclare void @v()\ndeclare void @w(i32)\ndeclare void @va(i32, ...)\ndeclare void ()* @gp()\n" +
 		"define i32 @f(i32" + ex(0, " %0", "") + ", i32" + ex(1, " %1", "") + ") {\n" +
 		ex(2, "2:\n", "") +
 		"\t" + ex(3, "%3 = ", "") + "add i32 %0, %1\n" +
@@ -30,6 +30,9 @@ func VfC08_ParseLocals() {
 		"\tcall void (i32) @w(i32 %0)\n" + // full function type in front of the callee: still void
 		"\tcall void (i32, ...) @va(i32 %0, i32 %1)\n" +
 		"\t" + ex(4, "%4 = ", "") + "call i32 @g()\n" +
+		"\tcall %sig @w(i32 %1)\n" + // the signature through a type alias: still void, no number
+		"\t%fp = call void ()* @gp()\n" + // the callee returns a function pointer: a value (named here)
+		"\tcall void %fp()\n" +
 		"\tbr label %5\n" +
 		"5:\n" +
 		"\t" + ex(5, "%6 = ", "") + "mul i32 %3, %4\n" +
@@ -41,7 +44,7 @@ func VfC08_ParseLocals() {
 	if err != nil {
 		return
 	}
-	f := m.Funcs[4]
+	f := m.Funcs[5]
 	b0, b1 := f.Blocks[0], f.Blocks[1]
 	add := b0.Insts[0].(*ir.InstAdd)
 	call := b0.Insts[4].(*ir.InstCall)
